@@ -32,7 +32,8 @@ import tempfile
 import weakref
 
 STREAMS = ['endpoints-parse', 'lifecycle-close-everywhere', 'lifecycle-random', 'lifecycle-reactions']
-THEOREMS = ['connect_fires_once', 'first_reachable_in_order', 'lost_fails_everything_once', 'endpoint_prefix_table']
+THEOREMS = ['connect_fires_once', 'first_reachable_in_order', 'lost_fails_everything_once', 'endpoint_prefix_table',
+            'address_list_in_listed_order']
 TRUSTED_BASE = [
     'Twisted semantics assumed by the model and emulated by the harness: connectionLost is delivered once, no data '
     'after it; transport.loseConnection() is followed by connectionLost(ConnectionDone); an exception escaping '
@@ -1279,7 +1280,7 @@ def _run(ctx, M, tmp):
         check_scenarios(ctx, M, 'lifecycle-reactions', life)
 
     # ---- endpoints-parse
-    n = ctx.scale(quick=1500, thorough=20000)
+    n = ctx.scale(quick=1500, thorough=60000)
     cases = [gen_parse_case(rng, tmp) for _ in range(n)]
     out = ctx.model([parse_model_line(c) for c in cases])
     for k, c in enumerate(cases):
@@ -1297,7 +1298,7 @@ def _run(ctx, M, tmp):
                               inp=c, observed=impl, expected=want)
 
     # ---- lifecycle: base histories, and the close injected at every point of each
-    nbase = ctx.scale(quick=300, thorough=2500)
+    nbase = ctx.scale(quick=300, thorough=8000)
     bases, everywhere = [], []
     for _ in range(nbase):
         entries, addr, steps = gen_history(rng, tmp)
